@@ -1221,29 +1221,34 @@ func (rs RangeSorter) Less(i, j int) bool {
 	return false
 }
 
-// Normalize ranges - remove overlaps: [1..4],[2..4],[5..7] -> [1..7].
+// Normalize ranges - remove overlaps: [1..4),[2..4),[4..7) -> [1..7).
 // The ranges are expected to be sorted.
-// Ranges are inclusive-inclusive, i.e. [1..3] -> 1, 2, 3.
+// Ranges are inclusive-exclusive, i.e. [1..4) -> 1, 2, 3; Hi == 0 means a single ID Low.
 func (rs RangeSorter) Normalize() RangeSorter {
 	if ll := rs.Len(); ll > 1 {
 		prev := 0
 		for i := 1; i < ll; i++ {
-			if rs[prev].Low == rs[i].Low {
-				// Earlier range is guaranteed to be wider or equal to the later range,
-				// collapse two ranges into one (by doing nothing)
-				continue
+			// Exclusive upper bounds of the previous and the current range.
+			prevHi := rs[prev].Hi
+			if prevHi == 0 {
+				prevHi = rs[prev].Low + 1
 			}
-			// Check for full or partial overlap
-			if rs[prev].Hi > 0 && rs[prev].Hi+1 >= rs[i].Low {
-				// Partial overlap
-				if rs[prev].Hi < rs[i].Hi {
-					rs[prev].Hi = rs[i].Hi
+			hi := rs[i].Hi
+			if hi == 0 {
+				hi = rs[i].Low + 1
+			}
+			// Check for full or partial overlap, or for adjacency.
+			if prevHi >= rs[i].Low {
+				if prevHi < hi {
+					// Partial overlap or adjacent ranges: extend the previous range.
+					rs[prev].Hi = hi
 				}
 				// Otherwise the next range is fully within the previous range, consume it by doing nothing.
 				continue
 			}
 			// No overlap
 			prev++
+			rs[prev] = rs[i]
 		}
 		rs = rs[:prev+1]
 	}
